@@ -131,6 +131,7 @@ type docState struct {
 	keys        []keyUse
 	services    []svc
 	deactivated bool
+	kaEmbed     map[int]bool // per key: override of world.embedKA for this version
 }
 
 func (s docState) clone() docState {
@@ -178,7 +179,11 @@ func (w *world) build(s docState) did.Document {
 		if err != nil {
 			panic(err)
 		}
-		if ku.keyAgr && w.embedKA[ku.k] && !ku.auth && !ku.assert && !ku.capInv && !ku.capDel {
+		embed := w.embedKA[ku.k]
+		if v, ok := s.kaEmbed[ku.k]; ok {
+			embed = v
+		}
+		if ku.keyAgr && embed && !ku.auth && !ku.assert && !ku.capInv && !ku.capDel {
 			// embedded-only key: present in keyAgreement as an object, not listed in verificationMethod
 			doc.KeyAgreement = append(doc.KeyAgreement, did.VerificationRelationship{VerificationMethod: vm})
 			continue
@@ -197,7 +202,7 @@ func (w *world) build(s docState) did.Document {
 			doc.CapabilityDelegation.Add(vm)
 		}
 		if ku.keyAgr {
-			if w.embedKA[ku.k] {
+			if embed {
 				doc.KeyAgreement = append(doc.KeyAgreement, did.VerificationRelationship{VerificationMethod: vm})
 			} else {
 				doc.KeyAgreement.Add(vm)
@@ -459,6 +464,20 @@ func shapeNodes(rnd *rand.Rand, shape string, big bool) []node {
 			out = append(out, up(0), up(1))
 		}
 		return out
+	case "fork3-idclash":
+		// parallel branches give the SAME service id / key id different content, a third branch drops them
+		out := []node{{kind: "create-clash"}, {parents: []int{0}, kind: "clash"}, {parents: []int{0}, kind: "clash"}, {parents: []int{0}, kind: "clash-drop"}}
+		if big {
+			out = []node{{kind: "create-clash"}, {parents: []int{0}, kind: "clash"}, {parents: []int{0}, kind: "clash"}, {parents: []int{0}, kind: "clash"}, {parents: []int{0}, kind: "clash-drop"}}
+		}
+		if rnd.Intn(2) == 0 {
+			ps := []int{}
+			for i := 1; i < len(out); i++ {
+				ps = append(ps, i)
+			}
+			out = append(out, up(ps...))
+		}
+		return out
 	case "random":
 		n := 3 + rnd.Intn(3)
 		if big {
@@ -494,7 +513,7 @@ func shapeNodes(rnd *rand.Rand, shape string, big bool) []node {
 	panic("unknown shape " + shape)
 }
 
-var shapes = []string{"fork2", "fork3", "fork2-resolved", "deactivate", "fork3-resolved", "linear", "deactivate-fork", "root-conflict", "fork3-partial", "fork-late", "random", "two-dids"}
+var shapes = []string{"fork2", "fork3", "fork2-resolved", "deactivate", "fork3-resolved", "linear", "deactivate-fork", "root-conflict", "fork3-partial", "fork-late", "random", "two-dids", "fork3-idclash"}
 
 func refOf(seed int64, set, did, i int) hash.SHA256Hash {
 	return hash.SHA256Sum([]byte(fmt.Sprintf("c10-ref/%d/%d/%d/%d", seed, set, did, i)))
@@ -513,6 +532,10 @@ func genSet(r *ev.Run, idx int, keys []keyMat) *eventSet {
 	dups := 0
 	if rnd.Intn(4) == 0 {
 		dups = 1 + rnd.Intn(2)
+	}
+	if set.Shape == "fork3-idclash" {
+		// ids are not content-derived here; siblings sort by signing time so that the branch that drops the entries is applied last
+		idReuse, timeMode, clockJitter = true, "monotone", false
 	}
 	feat := []string{"time:" + timeMode}
 	if rich {
@@ -569,6 +592,46 @@ func genSet(r *ev.Run, idx int, keys []keyMat) *eventSet {
 				}
 			case "revert":
 				st = states[i-2].clone()
+			case "create-clash":
+				st = w.initial(rnd, rich)
+				has := false
+				for _, sv := range st.services {
+					has = has || sv.typ == "NutsComm"
+				}
+				if !has {
+					st.services = append(st.services, svc{typ: "NutsComm", ep: genEndpoint(rnd)})
+				}
+			case "clash":
+				st = states[nd.parents[0]].clone()
+				for k := range st.services {
+					if st.services[k].typ == "NutsComm" {
+						st.services[k].ep = fmt.Sprintf("grpc://branch%d.example.com:5555", i)
+					}
+				}
+				have := false
+				for _, ku := range st.keys {
+					have = have || ku.k == 3
+				}
+				if !have {
+					st.keys = append(st.keys, keyUse{k: 3, assert: true, keyAgr: true})
+				}
+				st.kaEmbed = map[int]bool{3: i%2 == 0}
+			case "clash-drop":
+				st = states[nd.parents[0]].clone()
+				var keep []svc
+				for _, sv := range st.services {
+					if sv.typ != "NutsComm" {
+						keep = append(keep, sv)
+					}
+				}
+				st.services = keep
+				var kk []keyUse
+				for _, ku := range st.keys {
+					if ku.k != 3 {
+						kk = append(kk, ku)
+					}
+				}
+				st.keys = kk
 			default:
 				st = w.mutate(rnd, states[nd.parents[0]], rich)
 				if len(nd.parents) > 1 && !st.deactivated {
@@ -806,12 +869,21 @@ func query(st didstore.Store, lab labeler, key string, id did.DID, md *resolver.
 	return qres{Key: key, Shape: sh, Full: full + " doc=" + string(b), Doc: string(b)}, meta
 }
 
-// digest asks the store everything the property lists. Keys are functions of the event set only.
+// digest asks the store everything the property lists. Keys are functions of the event set only (versions found by
+// walking the hash chain are keyed by their identity: source transaction set + update time).
+// Queries without AllowDeactivated are repeated for by-ref/by-hash/by-time only when the set contains a deactivation
+// (without one both forms take the same path through the store).
 func digest(st didstore.Store, set *eventSet, lab labeler) []qres {
 	var out []qres
 	add := func(q qres, _ *resolver.DocumentMetadata) { out = append(out, q) }
 	for di, id := range set.DIDs {
 		p := fmt.Sprintf("did%d/", di)
+		both := false
+		for _, e := range set.Events {
+			if e.Deact && e.DID.Equals(id) {
+				both = true
+			}
+		}
 		add(query(st, lab, p+"latest/active", id, nil))
 		add(query(st, lab, p+"latest/active-explicit", id, &resolver.ResolveMetadata{}))
 		q, latest := query(st, lab, p+"latest/allow-deactivated", id, &resolver.ResolveMetadata{AllowDeactivated: true})
@@ -824,47 +896,67 @@ func digest(st didstore.Store, set *eventSet, lab labeler) []qres {
 			}
 			seenRef[e.Tx.Ref.String()] = true
 			ref, ph := e.Tx.Ref, e.Tx.PayloadHash
-			add(query(st, lab, p+"by-ref/"+e.Label+"/active", id, &resolver.ResolveMetadata{SourceTransaction: &ref}))
 			add(query(st, lab, p+"by-ref/"+e.Label+"/allow-deactivated", id, &resolver.ResolveMetadata{SourceTransaction: &ref, AllowDeactivated: true}))
-			add(query(st, lab, p+"by-hash/payload-"+e.Label+"/active", id, &resolver.ResolveMetadata{Hash: &ph}))
 			add(query(st, lab, p+"by-hash/payload-"+e.Label+"/allow-deactivated", id, &resolver.ResolveMetadata{Hash: &ph, AllowDeactivated: true}))
+			if both {
+				add(query(st, lab, p+"by-ref/"+e.Label+"/active", id, &resolver.ResolveMetadata{SourceTransaction: &ref}))
+				add(query(st, lab, p+"by-hash/payload-"+e.Label+"/active", id, &resolver.ResolveMetadata{Hash: &ph}))
+			}
 			times = append(times, e.Tx.SigningTime)
 		}
 		// every version hash: walk the version chain from the latest version along previousHash
-		cur := latest
-		for k := 0; cur != nil && k <= len(set.Events)+1; k++ {
-			h := cur.Hash
-			add(query(st, lab, fmt.Sprintf("%sby-hash/version-chain-%d/active", p, k), id, &resolver.ResolveMetadata{Hash: &h}))
-			q, m := query(st, lab, fmt.Sprintf("%sby-hash/version-chain-%d/allow-deactivated", p, k), id, &resolver.ResolveMetadata{Hash: &h, AllowDeactivated: true})
+		identity := map[string]int{}
+		next := latest
+		visited := map[string]bool{}
+		for k := 0; next != nil && k <= len(set.Events)+1; k++ {
+			h := next.Hash
+			if visited[h.String()] {
+				// two versions with the same hash: resolving by hash yields the later one, the walk cannot get past it
+				break
+			}
+			visited[h.String()] = true
+			q, m := query(st, lab, "", id, &resolver.ResolveMetadata{Hash: &h, AllowDeactivated: true})
+			ident := "unresolvable"
+			if m != nil {
+				ident = q.Shape[:strings.Index(q.Shape, " deactivated=")]
+			}
+			identity[ident]++
+			key := fmt.Sprintf("%sby-hash/version[%s]#%d", p, ident, identity[ident])
+			q.Key = key + "/allow-deactivated"
 			out = append(out, q)
+			if both {
+				add(query(st, lab, key+"/active", id, &resolver.ResolveMetadata{Hash: &h}))
+			}
 			if m == nil || m.PreviousHash == nil {
 				break
 			}
-			ph := *m.PreviousHash
-			_, pm := query(st, lab, "", id, &resolver.ResolveMetadata{Hash: &ph, AllowDeactivated: true})
-			cur = pm
+			next = &resolver.DocumentMetadata{Hash: *m.PreviousHash}
 		}
 		// times at and between all signing times
 		sort.Slice(times, func(i, j int) bool { return times[i].Before(times[j]) })
 		var probes []time.Time
 		var names []string
+		nt := 0
 		for i, t := range times {
 			if i == 0 {
-				probes, names = append(probes, t.Add(-time.Second)), append(names, "before-first")
+				probes, names = append(probes, t.Add(-time.Second)), append(names, "before-t0")
 			} else if t.Equal(times[i-1]) {
 				continue
 			} else {
-				probes, names = append(probes, times[i-1].Add(t.Sub(times[i-1])/2)), append(names, fmt.Sprintf("between-%d-%d", len(probes)/2, len(probes)/2+1))
+				probes, names = append(probes, times[i-1].Add(t.Sub(times[i-1])/2)), append(names, fmt.Sprintf("between-t%d-t%d", nt-1, nt))
 			}
-			probes, names = append(probes, t), append(names, fmt.Sprintf("at-%d", len(probes)/2))
+			probes, names = append(probes, t), append(names, fmt.Sprintf("at-t%d", nt))
+			nt++
 		}
 		if len(times) > 0 {
 			probes, names = append(probes, times[len(times)-1].Add(time.Second)), append(names, "after-last")
 		}
 		for i := range probes {
 			t := probes[i]
-			add(query(st, lab, p+"by-time/"+names[i]+"/active", id, &resolver.ResolveMetadata{ResolveTime: &t}))
 			add(query(st, lab, p+"by-time/"+names[i]+"/allow-deactivated", id, &resolver.ResolveMetadata{ResolveTime: &t, AllowDeactivated: true}))
+			if both {
+				add(query(st, lab, p+"by-time/"+names[i]+"/active", id, &resolver.ResolveMetadata{ResolveTime: &t}))
+			}
 		}
 		// published history
 		hist, err := st.HistorySinceVersion(id, 0)
@@ -1222,6 +1314,39 @@ func (s *eventSet) witness(lab labeler) []map[string]any {
 
 // ---- the check ------------------------------------------------------------------------------------------------------
 
+// seen is the representative (lowest run index) of one distinct digest of a set.
+type seen struct {
+	idx     int // (order index * replicas + replica) * 2 + stage
+	order   []int
+	replica int
+	variant string
+	stage   string
+	d       []qres
+}
+
+type runInfo struct {
+	hashes   []string
+	findings []finding
+	unspec   map[string]int
+	adds     int
+	redeliv  int
+	reopens  int
+	online   int
+	queries  int
+	broken   string
+}
+
+type setWork struct {
+	set        *eventSet
+	lab        labeler
+	ords       [][]int
+	exhaustive bool
+	distinctTx int
+	mu         sync.Mutex
+	byHash     map[string]*seen
+	runs       []runInfo
+}
+
 func TestCheck(t *testing.T) {
 	r := ev.Start(t, "C10", "exploration")
 	defer r.Finish()
@@ -1248,10 +1373,68 @@ func TestCheck(t *testing.T) {
 		keys = append(keys, genKey(krnd))
 	}
 
-	workers := runtime.GOMAXPROCS(0)
-	if workers > 14 {
-		workers = 14
+	works := make([]*setWork, nSets)
+	for si := range works {
+		set := genSet(r, si, keys)
+		w := &setWork{set: set, lab: labeler{}, byHash: map[string]*seen{}}
+		dt := map[string]bool{}
+		for _, e := range set.Events {
+			w.lab[e.Tx.Ref.String()] = e.Label
+			dt[e.Tx.Ref.String()] = true
+		}
+		w.distinctTx = len(dt)
+		w.ords, w.exhaustive = orders(r.Rand(fmt.Sprintf("orders/%d", si)), len(set.Events), limit)
+		w.runs = make([]runInfo, len(w.ords)*replicas)
+		works[si] = w
 	}
+
+	workers := runtime.GOMAXPROCS(0)
+	if workers > 16 {
+		workers = 16
+	}
+	type job struct{ si, oi, rep int }
+	jobs := make(chan job, 64)
+	var wg sync.WaitGroup
+	for k := 0; k < workers; k++ {
+		wg.Add(1)
+		go func() {
+			defer wg.Done()
+			for j := range jobs {
+				w := works[j.si]
+				res := run(r.Seed(), w.set, w.lab, j.oi, w.ords[j.oi], j.rep)
+				ri := runInfo{findings: res.findings, unspec: res.unspec, adds: res.adds, redeliv: res.redeliver, reopens: res.reopens, online: res.online, broken: res.broken}
+				for di, d := range res.digests {
+					h := digestHash(d)
+					ri.hashes = append(ri.hashes, h)
+					ri.queries += len(d)
+					for _, q := range d {
+						if strings.Contains(q.Shape, "ERR:unexpected") {
+							ri.findings = append(ri.findings, finding{"C10/resolve-error/" + classOf(q.Key), fmt.Sprintf("query %s failed after order [%s]: %s", q.Key, orderString(w.set, res.order), q.Shape),
+								map[string]any{"order": orderString(w.set, res.order), "query": q.Key, "answer": q.Shape}})
+						}
+					}
+					idx := (j.oi*replicas+j.rep)*2 + di
+					w.mu.Lock()
+					if s, ok := w.byHash[h]; !ok || idx < s.idx {
+						w.byHash[h] = &seen{idx, res.order, res.replica, res.variant, res.stage[di], d}
+					}
+					w.mu.Unlock()
+				}
+				w.runs[j.oi*replicas+j.rep] = ri
+			}
+		}()
+	}
+	for si, w := range works {
+		for oi := range w.ords {
+			for rep := 0; rep < replicas; rep++ {
+				jobs <- job{si, oi, rep}
+			}
+		}
+	}
+	close(jobs)
+	wg.Wait()
+
+	// report in a fixed order
 	type perSet struct {
 		Set        string   `json:"set"`
 		Features   []string `json:"features"`
@@ -1265,125 +1448,86 @@ func TestCheck(t *testing.T) {
 	var summary []perSet
 	allExhaustive := true
 	setsWithDifference := 0
-	for si := 0; si < nSets; si++ {
-		set := genSet(r, si, keys)
-		lab := labeler{}
-		distinctTx := map[string]bool{}
-		for _, e := range set.Events {
-			lab[e.Tx.Ref.String()] = e.Label
-			distinctTx[e.Tx.Ref.String()] = true
-		}
-		ords, exhaustive := orders(r.Rand(fmt.Sprintf("orders/%d", si)), len(set.Events), limit)
-		type job struct{ oi, rep int }
-		jobs := make(chan job)
-		results := make([]runResult, len(ords)*replicas)
-		var wg sync.WaitGroup
-		for w := 0; w < workers; w++ {
-			wg.Add(1)
-			go func() {
-				defer wg.Done()
-				for j := range jobs {
-					results[j.oi*replicas+j.rep] = run(r.Seed(), set, lab, j.oi, ords[j.oi], j.rep)
-				}
-			}()
-		}
-		for oi := range ords {
-			for rep := 0; rep < replicas; rep++ {
-				jobs <- job{oi, rep}
-			}
-		}
-		close(jobs)
-		wg.Wait()
-
-		// aggregate in a fixed order
-		type seen struct {
-			res   *runResult
-			stage string
-			d     []qres
-		}
-		byHash := map[string]seen{}
-		var hashOrder []string
-		perOrder := map[int]map[string]bool{}
+	for _, w := range works {
+		set, lab := w.set, w.lab
 		digests := 0
-		for i := range results {
-			res := &results[i]
-			if res.broken != "" {
-				r.Fatalf("harness failure in %s order [%s]: %s", set.name(), orderString(set, res.order), res.broken)
-			}
-			r.Case(fmt.Sprintf("%s/%s/%d", set.name(), orderString(set, res.order), res.replica), len(distinctTx) >= 2)
-			r.Count("adds", res.adds)
-			r.Count("redeliveries", res.redeliver)
-			r.Count("reopens_from_disk", res.reopens)
-			r.Count("online_deactivation_checks", res.online)
-			r.Count("stores", 1)
-			for k, n := range res.unspec {
-				for ; n > 0; n-- {
-					r.Unspecified(k)
+		sameOrderDiffers := 0
+		for oi, ord := range w.ords {
+			hs := map[string]bool{}
+			for rep := 0; rep < replicas; rep++ {
+				ri := &w.runs[oi*replicas+rep]
+				if ri.broken != "" {
+					r.Fatalf("harness failure in %s order [%s]: %s", set.name(), orderString(set, ord), ri.broken)
 				}
-			}
-			for _, f := range res.findings {
-				f.witness["set"] = set.name()
-				f.witness["features"] = set.Features
-				f.witness["events"] = set.witness(lab)
-				r.Violation(f.key, set.name()+": "+f.what, f.witness)
-			}
-			for di, d := range res.digests {
-				digests++
-				r.Count("queries_answered", len(d))
-				for _, q := range d {
-					if strings.Contains(q.Shape, "ERR:unexpected") {
-						r.Violation("C10/resolve-error/"+classOf(q.Key), fmt.Sprintf("%s: query %s failed after order [%s]: %s", set.name(), q.Key, orderString(set, res.order), q.Shape),
-							map[string]any{"set": set.name(), "events": set.witness(lab), "order": orderString(set, res.order), "query": q.Key, "answer": q.Shape})
+				r.Case(fmt.Sprintf("%s/%s/%d", set.name(), orderString(set, ord), rep), w.distinctTx >= 2)
+				r.Count("adds", ri.adds)
+				r.Count("redeliveries", ri.redeliv)
+				r.Count("reopens_from_disk", ri.reopens)
+				r.Count("online_deactivation_checks", ri.online)
+				r.Count("queries_answered", ri.queries)
+				r.Count("stores", 1)
+				for k, n := range ri.unspec {
+					for ; n > 0; n-- {
+						r.Unspecified(k)
 					}
 				}
-				h := digestHash(d)
-				if perOrder[i/replicas] == nil {
-					perOrder[i/replicas] = map[string]bool{}
+				for _, f := range ri.findings {
+					f.witness["set"] = set.name()
+					f.witness["features"] = set.Features
+					f.witness["events"] = set.witness(lab)
+					r.Violation(f.key, set.name()+": "+f.what, f.witness)
 				}
-				perOrder[i/replicas][h] = true
-				if _, ok := byHash[h]; !ok {
-					byHash[h] = seen{res, res.stage[di], d}
-					hashOrder = append(hashOrder, h)
+				for _, h := range ri.hashes {
+					hs[h] = true
+					digests++
 				}
 			}
+			if len(hs) > 1 {
+				sameOrderDiffers++
+			}
 		}
-		r.Count("orders_run", len(ords))
+		r.Count("orders_run", len(w.ords))
 		r.Count("digests_compared", digests)
 		r.Count("event_sets", 1)
 		r.Distinct("shapes", set.Shape)
 		for _, f := range set.Features {
 			r.Distinct("features", f)
 		}
-		if exhaustive {
+		if w.exhaustive {
 			r.Count("event_sets_exhaustive", 1)
 		} else {
 			allExhaustive = false
 		}
-		summary = append(summary, perSet{set.name(), set.Features, len(set.Events), len(ords), len(results), digests, len(byHash), exhaustive})
-		if si < 4 {
-			r.Sample(map[string]any{"set": set.name(), "features": set.Features, "events": set.witness(lab), "orders": len(ords), "exhaustive": exhaustive, "stores": len(results),
-				"distinct_digests": len(byHash), "queries_per_digest": len(results[0].digests[0]), "example_order": orderString(set, ords[len(ords)-1])})
+		summary = append(summary, perSet{set.name(), set.Features, len(set.Events), len(w.ords), len(w.runs), digests, len(w.byHash), w.exhaustive})
+		var reps []*seen
+		for _, s := range w.byHash {
+			reps = append(reps, s)
 		}
-		if len(byHash) > 1 {
+		sort.Slice(reps, func(i, j int) bool { return reps[i].idx < reps[j].idx })
+		if set.Index < 4 {
+			r.Sample(map[string]any{"set": set.name(), "features": set.Features, "events": set.witness(lab), "orders": len(w.ords), "exhaustive": w.exhaustive, "stores": len(w.runs),
+				"distinct_digests": len(w.byHash), "queries_per_digest": len(reps[0].d), "example_order": orderString(set, w.ords[len(w.ords)-1])})
+		}
+		if len(reps) > 1 {
 			setsWithDifference++
-			sameOrderDiffers := 0
-			for _, m := range perOrder {
-				if len(m) > 1 {
-					sameOrderDiffers++
+			ref := reps[0]
+			for _, other := range reps[1:] {
+				cmp := compare(ref.d, other.d)
+				var ckeys []string
+				for k := range cmp {
+					ckeys = append(ckeys, k)
 				}
-			}
-			ref := byHash[hashOrder[0]]
-			for _, h := range hashOrder[1:] {
-				other := byHash[h]
-				for key, diffs := range compare(ref.d, other.d) {
+				sort.Strings(ckeys)
+				for _, key := range ckeys {
+					diffs := cmp[key]
 					if len(diffs) > 6 {
 						diffs = diffs[:6]
 					}
 					r.Violation(key, fmt.Sprintf("%s %v: %d distinct resolution digests over %d orders x %d stores (%d orders give different digests on identical deliveries); order [%s] (%s, replica %d) and order [%s] (%s, replica %d) differ in %s: %q vs %q",
-						set.name(), set.Features, len(byHash), len(ords), replicas, sameOrderDiffers, orderString(set, ref.res.order), ref.stage, ref.res.replica, orderString(set, other.res.order), other.stage, other.res.replica,
+						set.name(), set.Features, len(reps), len(w.ords), replicas, sameOrderDiffers, orderString(set, ref.order), ref.stage, ref.replica, orderString(set, other.order), other.stage, other.replica,
 						diffs[0].Query, clip(diffs[0].A), clip(diffs[0].B)),
-						map[string]any{"set": set.name(), "features": set.Features, "events": set.witness(lab), "order_a": orderString(set, ref.res.order), "stage_a": ref.stage, "variant_a": ref.res.variant,
-							"order_b": orderString(set, other.res.order), "stage_b": other.stage, "variant_b": other.res.variant, "differences": diffs, "distinct_digests": len(byHash), "orders_with_nondeterministic_result": sameOrderDiffers})
+						map[string]any{"set": set.name(), "features": set.Features, "events": set.witness(lab), "order_a": orderString(set, ref.order), "stage_a": ref.stage, "variant_a": ref.variant,
+							"order_b": orderString(set, other.order), "stage_b": other.stage, "variant_b": other.variant, "differences": diffs, "distinct_digests": len(reps), "orders_with_nondeterministic_result": sameOrderDiffers})
 				}
 			}
 		}
